@@ -216,6 +216,8 @@ def fam_startonce(rng):
             p["args"] = None
             if rng.random() < 0.15:
                 p["falsy_service"] = True
+            if rng.random() < 0.2:
+                p["svc_base"] = rng.choice(FLAVS)
         p["mode"] = m
     before, control, helpers, pid = place(rng, ps, pid)
     allp = ps + helpers
